@@ -489,7 +489,7 @@ func runC41Scope(c *core.Check) {
 		}
 		return true
 	})
-	if nattr < 20 {
+	if nattr < 10 {
 		c.Fail("C41.attr-scope", "attr-scope:inventory", token.NoPos, fmt.Sprintf("only %d in-place attribute rewrites found in _set", nattr))
 	}
 }
